@@ -1,6 +1,7 @@
 package main
 
 import (
+	"bytes"
 	"context"
 	"encoding/binary"
 	"encoding/json"
@@ -259,21 +260,32 @@ func runTTHCase(raw json.RawMessage, w *TraceWriter) {
 		}
 		w.Ev("tth_enc", "api", "bytes", "param", pj, "ok", ok, "panic", panicked, "frame", fj, "written", len(buf))
 	}()
-	// Encode over a stream-backed writer
-	func() {
+	// Encode over a stream-backed writer that is empty / already holds unflushed bytes of an earlier message (the frame
+	// must not depend on what is in front of it); the returned total-length slice must be the frame's first 4 bytes
+	for _, prefill := range []int{0, 1 + int(uint32(c.Seq)%7), 4093} {
 		panicked := false
 		sink := &recSink{}
 		bw := bufiox.NewDefaultWriter(sink)
 		var err error
 		wl := 0
+		var tlf []byte
 		func() {
 			defer func() {
 				if r := recover(); r != nil {
 					panicked = true
 				}
 			}()
-			_, err = ttheader.Encode(ctx, param, bw)
-			wl = bw.WrittenLen()
+			if prefill > 0 {
+				pb, _ := bw.Malloc(prefill)
+				for i := range pb {
+					pb[i] = 0xD7
+				}
+			}
+			tlf, err = ttheader.Encode(ctx, param, bw)
+			wl = bw.WrittenLen() - prefill
+			if err == nil && len(tlf) == 4 {
+				binary.BigEndian.PutUint32(tlf, 0xDEADBEEF)
+			}
 			if err == nil {
 				err = bw.Flush()
 			}
@@ -284,11 +296,17 @@ func runTTHCase(raw json.RawMessage, w *TraceWriter) {
 			all = append(all, p...)
 		}
 		fj := Raw("[]")
+		tlfok := true
 		if ok {
-			fj = projectBytes(all, seeds)
+			tlfok = len(tlf) == 4 && len(all) >= prefill+4 && binary.BigEndian.Uint32(all[prefill:]) == 0xDEADBEEF && bytes.Equal(all[:prefill], bytes.Repeat([]byte{0xD7}, prefill))
+			if tlfok {
+				fr := append([]byte(nil), all[prefill:]...)
+				binary.BigEndian.PutUint32(fr, 0) // as EncodeToBytes leaves it
+				fj = projectBytes(fr, seeds)
+			}
 		}
-		w.Ev("tth_enc", "api", "stream", "param", pj, "ok", ok, "panic", panicked, "frame", fj, "written", wl)
-	}()
+		w.Ev("tth_enc", "api", "stream", "param", pj, "ok", ok, "panic", panicked, "frame", fj, "written", wl, "tlfok", tlfok, "prefill", prefill)
+	}
 	if frame == nil {
 		return
 	}
